@@ -272,7 +272,8 @@ EXTRA_OPS = {"set-strval", "set-intval", "set-ukey", "get-ukey", "set-flags", "t
              "set-empty", "getitem-empty", "setitem", "getitem", "delitem", "getitem-miss", "set-none", "get-none",
              "set-2char", "get-2char", "get-2byte", "gets-kwdefaults-miss", "gats-kwdefaults-miss", "incr-kwkey",
              "append-exp-flags", "prepend-exp-flags", "set-tupleval", "get-tuple-default", "set-prefix-alias", "get-prefix-alias",
-             "get-many-prefix-alias", "delete-many-absent-first"}
+             "get-many-prefix-alias", "delete-many-absent-first",
+             "set-flags0", "add-flags0", "replace-flags0", "setmany-flags0", "cas-flags0", "get-flags0"}
 
 
 def do_extra(cl, ev, kind):
@@ -343,6 +344,20 @@ def do_extra(cl, ev, kind):
             r = cl.delete_many(["never-set", "dm2"], noreply=False)
             r = [r, cl.get("dm2", DFLT)]
             r = r[0] is True and r[1] == DFLT
+        # an explicit flags=0 is an argument like any other (0 is not "no flags given": with a serializer that marks text or
+        # integers the item is then stored unmarked and read back as bytes) -- every storage command, then the reads
+        elif op == "set-flags0":
+            r = cl.set("f0", "text", noreply=False, flags=0)
+        elif op == "add-flags0":
+            r = cl.add("f0a", "text", noreply=False, flags=0)
+        elif op == "replace-flags0":
+            r = cl.replace("f0", "text2", noreply=False, flags=0)
+        elif op == "setmany-flags0":
+            r = cl.set_many({"f0m": "text", "f0n": "7"}, noreply=False, flags=0)
+        elif op == "cas-flags0":
+            r = cl.cas("f0", "text3", b"1", noreply=False, flags=0)
+        elif op == "get-flags0":
+            r = cl.get_many(["f0", "f0a", "f0m", "f0n"])
         elif op == "incr-kwkey":             # everything by keyword, on a value that is not a number: the same error everywhere
             r = cl.incr(key="sv", value=1, noreply=False)        # "sv" holds text (set-strval)
         else:
